@@ -62,16 +62,18 @@ Voters(s, votes) == {votes[i].val : i \in 1..Len(votes)} \cap DOMAIN s.hostVals
 Report(x, cp) == IF x.kind # "prices" THEN 0 ELSE IF cp = "TS" THEN x.ts ELSE IF Has(x.p, cp) THEN x.p[cp] ELSE 0
 Providers(s, votes, cp) == {v \in Voters(s, votes) : Report(LastVote(votes, v), cp) > 0}
 Weight(s, votes, cp) == SumOver(s.hostVals, Providers(s, votes, cp))
-Enough(s, votes, cp) == Providers(s, votes, cp) # {} /\ 3 * Weight(s, votes, cp) >= 2 * Total(s)
+(* connect's DefaultPowerThreshold is the decimal 0.667, not 2/3 *)
+Enough(s, votes, cp) == Providers(s, votes, cp) # {} /\ 1000 * Weight(s, votes, cp) >= 667 * Total(s)
 
-(* stake-weighted median: reports sorted ascending, first one at which the cumulative weight reaches floor(total weight / 2) *)
+(* stake-weighted median: reports sorted ascending, first one at which the cumulative weight reaches half of the reporting   *)
+(* weight (weights are bonded tokens = power * 10^6, so the halving is exact at the granularity of powers)                   *)
 Median(s, votes, cp) ==
   LET P == Providers(s, votes, cp)
       val(v) == Report(LastVote(votes, v), cp)
       below(x) == SumOver(s.hostVals, {v \in P : val(v) <= x})
-      mid == Weight(s, votes, cp) \div 2
+      w == Weight(s, votes, cp)
       cands == {val(v) : v \in P}
-  IN CHOOSE x \in cands : below(x) >= mid /\ \A y \in cands : (y < x => below(y) < mid)
+  IN CHOOSE x \in cands : 2 * below(x) >= w /\ \A y \in cands : (y < x => 2 * below(y) < w)
 
 Pairs(s) == DOMAIN s.price
 Aggregated(s, votes) == {cp \in Pairs(s) : Enough(s, votes, cp)}
